@@ -450,3 +450,94 @@ Qed.
 Example C11_ex_two_series_pairs :
   rpairs (DT := IsNoneXR) (DT2 := IsNoneXR) idX [Some 1%R; None; Some 3%R] [Some 2%R; Some 5%R; None] = [(1%R, 2%R)].
 Proof. reflexivity. Qed.
+
+(* ================= binary64: the one-pass sum up to floating-point rounding (Proofs/RoundSum.v) ========= *)
+(* So far "up to floating-point rounding" was the comparator tolerance of the correspondence run.  Here it is a
+   theorem about the EXECUTION instance of the model — `vsum` at Coq's primitive binary64 `float` (NumF64, NaN is
+   the null), the very term the correspondence run evaluates and compares bit for bit with Rust.
+     f2r x      the real value of a finite float            ffin x     x is finite (PrimFloat.is_finite)
+     fvals xs   the valid (non-NaN) elements, in order       rvals64 xs their real values
+     u64 = 2^-53 (C11_u64_value)                             gam u n = (1+u)^n - 1  (<= n u (1+u)^n, C11_gam_linear)
+     sumabs l = sum of |l_k|                                 fx : float -> option R  (NaN -> None)
+   The only premise is EXECUTABLE: the computed sum is finite.  (A non-finite operand or partial sum can never
+   become finite again, so this certifies "no overflow, no infinity in the input" — C11_vsum_finite_certifies.)
+   Flocq supplies IEEE addition (Bplus_correct), the error of a rounded sum without underflow term
+   (FLT_plus_error_N_ex) and the bridge to the primitive floats (Flocq.IEEE754.PrimFloat.add_equiv).          *)
+From Coq Require Import Floats.
+From Tevec Require Import Base.F64 Proofs.RoundSum.
+
+(* (R1) the left fold s_0 = 0, s_{k+1} = fl(s_k + x_k) over any list of floats *)
+Theorem C11_round_sum_fold : forall ys : list PrimFloat.float,
+  ffin (ffold zero ys) = true ->
+  (Rabs (f2r (ffold zero ys) - sumR (map f2r ys)) <= gam u64 (length ys) * sumabs (map f2r ys))%R.
+Proof. exact round_sum_fold. Qed.
+
+(* (R2) the model's one-pass sum: |vsum_float xs - sum of the valid elements| <= ((1+u)^n - 1) * sum |valid| *)
+Theorem C11_vsum_binary64_error : forall (xs : list PrimFloat.float) (r : PrimFloat.float),
+  vsum (NA := NumF64) (DT := IsNoneF64) xs = Some r -> ffin r = true ->
+  (Rabs (f2r r - sumR (rvals64 xs)) <= gam u64 (length (rvals64 xs)) * sumabs (rvals64 xs))%R.
+Proof. exact vsum_binary64_error. Qed.
+
+(* the same with the explicit constant n u (1+u)^n *)
+Theorem C11_vsum_binary64_error_linear : forall (xs : list PrimFloat.float) (r : PrimFloat.float),
+  vsum (NA := NumF64) (DT := IsNoneF64) xs = Some r -> ffin r = true ->
+  (Rabs (f2r r - sumR (rvals64 xs))
+   <= INR (length (rvals64 xs)) * u64 * (1 + u64) ^ length (rvals64 xs) * sumabs (rvals64 xs))%R.
+Proof. exact vsum_binary64_error_linear. Qed.
+
+Theorem C11_u64_value : u64 = (/ 9007199254740992)%R.
+Proof. exact u64_value. Qed.
+Theorem C11_gam_linear : forall (u : R) (n : nat), (0 <= u)%R -> (gam u n <= INR n * u * (1 + u) ^ n)%R.
+Proof. exact gam_le_linear. Qed.
+
+(* (R3) against the exact model: the float model and the option-R model of the SAME series are null together and
+   their values differ by at most the bound *)
+Theorem C11_vsum_float_vs_exact_model : forall (xs : list PrimFloat.float) (r : PrimFloat.float),
+  vsum (NA := NumF64) (DT := IsNoneF64) xs = Some r -> ffin r = true ->
+  exists e : R, vsum (NA := NumXR) (DT := IsNoneXR) (map fx xs) = Some (Some e) /\
+                (Rabs (f2r r - e) <= gam u64 (length (rvals64 xs)) * sumabs (rvals64 xs))%R.
+Proof. exact vsum_float_vs_exact_model. Qed.
+
+(* a finite result certifies that every valid element was finite *)
+Theorem C11_vsum_finite_certifies : forall (xs : list PrimFloat.float) (r : PrimFloat.float),
+  vsum (NA := NumF64) (DT := IsNoneF64) xs = Some r -> ffin r = true ->
+  Forall (fun y => ffin y = true) (fvals xs).
+Proof. exact vsum_finite_inputs. Qed.
+
+(* (R4) exactness: when every valid element is finite and an integer multiple of 2^e (executable test grid_check)
+   and the magnitudes add up to less than 2^(e+53), no addition rounds: model(float) = model(option R).  The
+   generated inputs are k/4 with |k| <= 400 (e = -2): exact for series of up to 2^53/400 elements — which is why the
+   correspondence run sees bit-identical sums. *)
+Theorem C11_vsum_exact_on_grid : forall (e : Z) (xs : list PrimFloat.float),
+  (-1074 <= e <= 971)%Z -> forallb (grid_check e) (fvals xs) = true ->
+  (sumabs (rvals64 xs) < pow2 (e + 53))%R ->
+  option_map fx (vsum (NA := NumF64) (DT := IsNoneF64) xs) = vsum (NA := NumXR) (DT := IsNoneXR) (map fx xs).
+Proof. intros e xs He HG Hb. apply (vsum_f64_exact_on_grid e xs He); [apply grid_check_all, HG|exact Hb]. Qed.
+
+(* non-vacuity: 0.1 + 0.2 + 0.3 rounds (twice), a NaN is skipped; the premises hold *)
+Example C11_ex_round_premises :
+  exists r, vsum (NA := NumF64) (DT := IsNoneF64) [0.1; nan; 0.2; 0.3]%float = Some r /\ ffin r = true /\
+            r <> 0.6%float /\ length (fvals [0.1; nan; 0.2; 0.3]%float) = 3.
+Proof.
+  eexists. split; [vm_compute; reflexivity|]. split; [vm_compute; reflexivity|]. split; [|vm_compute; reflexivity].
+  intros H. apply (f_equal (fun x => PrimFloat.eqb x 0.6%float)) in H. vm_compute in H. discriminate.
+Qed.
+(* the finiteness premise is needed: an overflowing sum is infinite although every input is finite *)
+Example C11_ex_overflow_is_detected :
+  ffin (ffold zero [0x1p1023; 0x1p1023]%float) = false /\
+  Forall (fun y => ffin y = true) [0x1p1023; 0x1p1023]%float.
+Proof. split; [vm_compute; reflexivity|repeat constructor]. Qed.
+(* a grid input (multiples of 1/4), premises of (R4) *)
+Example C11_ex_grid_premises :
+  forallb (grid_check (-2)) (fvals [1.25; nan; -0.75; 100]%float) = true /\
+  vsum (NA := NumF64) (DT := IsNoneF64) [1.25; nan; -0.75; 100]%float = Some 100.5%float.
+Proof. split; vm_compute; reflexivity. Qed.
+
+Print Assumptions C11_round_sum_fold.
+Print Assumptions C11_vsum_binary64_error.
+Print Assumptions C11_vsum_binary64_error_linear.
+Print Assumptions C11_u64_value.
+Print Assumptions C11_gam_linear.
+Print Assumptions C11_vsum_float_vs_exact_model.
+Print Assumptions C11_vsum_finite_certifies.
+Print Assumptions C11_vsum_exact_on_grid.
